@@ -122,8 +122,23 @@ pub fn dfs_from<O>(
         bound,
         ..Default::default()
     };
-    let mut stack: Vec<Vec<u32>> = vec![start.to_vec()];
-    while let Some(prefix) = stack.pop() {
+    // the frontier is ordered by the number of deviations from the default schedule (fewest first,
+    // depth-first among equals): the first counterexample has the fewest deviations, and a capped
+    // search has covered the schedules with the fewest deviations first
+    // (three classes: 0, 1, and 2-or-more deviations; the last class is plain depth-first so that the
+    // frontier stays as small as a depth-first stack)
+    let devs = |p: &Vec<u32>| p.iter().filter(|x| **x != 0).count().min(2);
+    let mut buckets: Vec<Vec<Vec<u32>>> = vec![];
+    let put = |buckets: &mut Vec<Vec<Vec<u32>>>, p: Vec<u32>| {
+        let d = devs(&p);
+        if buckets.len() <= d {
+            buckets.resize(d + 1, vec![]);
+        }
+        buckets[d].push(p);
+    };
+    put(&mut buckets, start.to_vec());
+    loop {
+        let Some(prefix) = buckets.iter_mut().find(|b| !b.is_empty()).and_then(|b| b.pop()) else { break };
         let mut ch = Chooser::new(&prefix);
         let o = run(&mut ch);
         st.executions += 1;
@@ -138,19 +153,28 @@ pub fn dfs_from<O>(
         }
         if !single {
             for p in children(&ch, prefix.len(), bound, &mut st.pruned_by_bound).into_iter().rev() {
-                stack.push(p);
+                put(&mut buckets, p);
             }
         }
+        let empty = buckets.iter().all(|b| b.is_empty());
         let go_on = visit(&ch, o);
         if !go_on {
+            if !empty {
+                st.capped = true;
+            }
             break;
         }
-        if st.executions >= cap && !stack.is_empty() {
+        if st.horizon_hits >= 8 && !empty {
+            // the scenario does not come to rest: more schedules of it add nothing (and cost the most)
             st.capped = true;
             break;
         }
-        if st.executions >= spill_after && !stack.is_empty() {
-            st.remaining = std::mem::take(&mut stack);
+        if st.executions >= cap && !empty {
+            st.capped = true;
+            break;
+        }
+        if st.executions >= spill_after && !empty {
+            st.remaining = buckets.into_iter().flatten().collect();
             break;
         }
     }
